@@ -264,18 +264,47 @@ Proof.
   rewrite !andb_true_iff, !N.eqb_eq, list_eqb_eq. intros [[-> ->] ->]. reflexivity.
 Qed.
 
-Definition check1 (toBits fromBits v fl nx : N) : bool :=
-  st_eqb (inner 8 toBits (u8 (N.shiftl v (8 - fromBits))) fromBits nx fl [])
-         (run toBits (bits_of (N.to_nat fromBits) v) (nx, fl, [])).
 
 (* toBits, fromBits in 1..8; v < 256; filled < toBits; next < 2^filled: about 10^6 cases *)
-Definition sweep : bool :=
+Definition sweep5 (P : N -> N -> N -> N -> N -> bool) : bool :=
   forallb (fun t => forallb (fun f => forallb (fun v => forallb (fun fl => forallb (fun nx =>
-    check1 (t + 1) (f + 1) v fl nx)
+    P (t + 1) (f + 1) v fl nx)
     (nrange (2 ^ fl))) (nrange (t + 1))) (nrange 256)) (nrange 8)) (nrange 8).
 
-Lemma sweep_ok : sweep = true.
-Proof. vm_compute. reflexivity. Qed.
+Lemma sweep5_lift P : sweep5 P = true ->
+  forall t f v fl nx,
+  1 <= t <= 8 -> 1 <= f <= 8 -> v < 256 -> fl < t -> nx < 2 ^ fl -> P t f v fl nx = true.
+Proof.
+  intros S t f v fl nx Ht Hf Hv Hfl Hnx.
+  assert (H1 : t - 1 < 8) by lia.
+  assert (H2 : f - 1 < 8) by lia.
+  assert (H3 : t - 1 + 1 = t) by lia.
+  assert (H4 : f - 1 + 1 = f) by lia.
+  unfold sweep5 in S.
+  apply forallb_nrange with (x := t - 1) in S; [|exact H1].
+  apply forallb_nrange with (x := f - 1) in S; [|exact H2].
+  apply forallb_nrange with (x := v) in S; [|exact Hv].
+  rewrite H3, H4 in S.
+  apply forallb_nrange with (x := fl) in S; [|exact Hfl].
+  apply forallb_nrange with (x := nx) in S; [|exact Hnx].
+  exact S.
+Qed.
+
+
+Local Notation check1 := (fun toBits fromBits v fl nx : N =>
+  st_eqb (inner 8 toBits (u8 (N.shiftl v (8 - fromBits))) fromBits nx fl [])
+         (run toBits (bits_of (N.to_nat fromBits) v) (nx, fl, []))).
+
+Lemma sweep_ok : sweep5 check1 = true.
+Proof. vm_cast_no_check (eq_refl true). Qed.
+
+Lemma inner_out_nil fuel toBits b rf nx fl out :
+  inner fuel toBits b rf nx fl out = push_out (inner fuel toBits b rf nx fl []) out.
+Proof. exact (inner_out fuel toBits b rf nx fl [] out). Qed.
+
+Lemma run_out_nil toBits bs nx fl out :
+  run toBits bs (nx, fl, out) = push_out (run toBits bs (nx, fl, [])) out.
+Proof. exact (run_out toBits bs nx fl [] out). Qed.
 
 Lemma inner_is_run toBits fromBits v fl nx out :
   1 <= toBits <= 8 -> 1 <= fromBits <= 8 -> v < 256 -> fl < toBits -> nx < 2 ^ fl ->
@@ -283,14 +312,93 @@ Lemma inner_is_run toBits fromBits v fl nx out :
   run toBits (bits_of (N.to_nat fromBits) v) (nx, fl, out).
 Proof.
   intros Ht Hf Hv Hfl Hnx.
-  pose proof sweep_ok as S. unfold sweep in S.
-  apply forallb_nrange with (x := toBits - 1) in S; [|lia].
-  apply forallb_nrange with (x := fromBits - 1) in S; [|lia].
-  apply forallb_nrange with (x := v) in S; [|lia].
-  replace (toBits - 1 + 1) with toBits in S by lia.
-  replace (fromBits - 1 + 1) with fromBits in S by lia.
-  apply forallb_nrange with (x := fl) in S; [|lia].
-  apply forallb_nrange with (x := nx) in S; [|lia].
+  pose proof (sweep5_lift _ sweep_ok _ _ _ _ _ Ht Hf Hv Hfl Hnx) as S.
+  cbv beta in S.
   apply st_eqb_eq in S.
-  change out with ([] ++ out). rewrite inner_out, run_out, S. reflexivity.
+  rewrite inner_out_nil, run_out_nil.
+  rewrite S. reflexivity.
+Qed.
+
+(* ---------- the outer loop ---------- *)
+Definition good (toBits : N) (st : state) : Prop :=
+  let '(nx, fl, _) := st in fl < toBits /\ nx < 2 ^ fl.
+
+Lemma step_good toBits st b : 1 <= toBits -> good toBits st -> good toBits (step toBits st b).
+Proof.
+  destruct st as [[nx fl] out]. cbn [good step]. intros Ht [Hfl Hnx].
+  destruct (N.eqb_spec (fl + 1) toBits) as [E|E]; cbn [good].
+  - split; [lia | cbn; lia].
+  - split; [lia|]. rewrite N.add_1_r, N.pow_succ_r'. destruct b; cbn [N.b2n]; lia.
+Qed.
+
+Lemma run_good toBits bs : 1 <= toBits -> forall st, good toBits st -> good toBits (run toBits bs st).
+Proof.
+  intros Ht. unfold run. induction bs as [|b bs IH]; intros st Hst; [exact Hst|].
+  cbn [fold_left]. apply IH, step_good; assumption.
+Qed.
+
+Lemma run_app toBits a b st : run toBits (a ++ b) st = run toBits b (run toBits a st).
+Proof. unfold run. apply fold_left_app. Qed.
+
+Lemma convert_loop_is_run fromBits toBits data :
+  1 <= toBits <= 8 -> 1 <= fromBits <= 8 -> Bytes data ->
+  forall nx fl out, good toBits (nx, fl, out) ->
+  convert_loop fromBits toBits data nx fl out =
+  run toBits (flat_map (bits_of (N.to_nat fromBits)) data) (nx, fl, out).
+Proof.
+  intros Ht Hf. induction data as [|v data IH]; intros Hb nx fl out Hg; [reflexivity|].
+  apply Bytes_cons in Hb as [Hv Hb].
+  cbn [convert_loop flat_map]. rewrite run_app.
+  destruct Hg as [Hfl Hnx].
+  rewrite (inner_is_run toBits fromBits v fl nx out Ht Hf Hv Hfl Hnx).
+  pose proof (run_good toBits (bits_of (N.to_nat fromBits) v) (proj1 Ht) (nx, fl, out) (conj Hfl Hnx)) as Hg'.
+  destruct (run toBits (bits_of (N.to_nat fromBits) v) (nx, fl, out)) as [[nx' fl'] out'].
+  apply IH; assumption.
+Qed.
+
+(* ---------- the bit-serial machine computes [groups] ---------- *)
+Lemma run_short toBits bs : forall nx fl out,
+  fl + N.of_nat (length bs) < toBits ->
+  run toBits bs (nx, fl, out) =
+  (nx * 2 ^ N.of_nat (length bs) + val_of bs, fl + N.of_nat (length bs), out).
+Proof.
+  unfold run. induction bs as [|b bs IH]; intros nx fl out H.
+  - cbn [fold_left length]. change (N.of_nat 0) with 0.
+    rewrite val_of_nil, N.pow_0_r, N.mul_1_r, !N.add_0_r. reflexivity.
+  - cbn [length] in *. cbn [fold_left step].
+    destruct (N.eqb_spec (fl + 1) toBits) as [E|E]; [lia|].
+    rewrite IH by lia. rewrite val_of_cons, Nat2N.inj_succ, N.pow_succ_r'.
+    replace (fl + 1 + N.of_nat (length bs)) with (fl + N.succ (N.of_nat (length bs))) by lia.
+    f_equal. f_equal. ring.
+Qed.
+
+Lemma run_group toBits g out :
+  1 <= toBits -> N.of_nat (length g) = toBits ->
+  run toBits g (0, 0, out) = (0, 0, val_of g :: out).
+Proof.
+  intros Ht Hg. destruct g as [|b0 g0] using rev_ind; [cbn in Hg; lia|]. clear IHg0.
+  rewrite app_length in Hg. cbn [length] in Hg.
+  rewrite run_app, run_short by lia. unfold run. cbn [fold_left step].
+  destruct (N.eqb_spec (0 + N.of_nat (length g0) + 1) toBits) as [E|E]; [|lia].
+  rewrite val_of_app. cbn [length]. change (2 ^ N.of_nat 1) with 2.
+  replace (val_of [b0]) with (N.b2n b0) by (destruct b0; reflexivity).
+  f_equal. f_equal. lia.
+Qed.
+
+Lemma run_concat toBits gs rest : 1 <= toBits ->
+  Forall (fun g => length g = N.to_nat toBits) gs -> forall out,
+  run toBits (concat gs ++ rest) (0, 0, out) = run toBits rest (0, 0, rev (map val_of gs) ++ out).
+Proof.
+  intros Ht. induction 1 as [|g gs Hg _ IH]; intros out; [reflexivity|].
+  cbn [concat map rev]. rewrite <- !app_assoc, run_app, run_group by lia.
+  rewrite IH. reflexivity.
+Qed.
+
+Lemma run_groups toBits bs gs tl : 1 <= toBits ->
+  groups (length bs) (N.to_nat toBits) bs = (gs, tl) ->
+  run toBits bs (0, 0, []) = (val_of tl, N.of_nat (length tl), rev (map val_of gs)).
+Proof.
+  intros Ht E. apply groups_sound in E as (E & Hgs & Htl); [|lia|lia].
+  subst bs. rewrite run_concat, run_short by (auto; lia).
+  rewrite app_nil_r, N.mul_0_l, !N.add_0_l. reflexivity.
 Qed.
